@@ -26,6 +26,7 @@ import (
 	"github.com/nspcc-dev/bbolt"
 	zz "github.com/nspcc-dev/neofs-node/internal/zzverif"
 	"github.com/nspcc-dev/neofs-node/internal/zzverif/simfs"
+	objectcore "github.com/nspcc-dev/neofs-node/pkg/core/object"
 	"github.com/nspcc-dev/neofs-node/pkg/local_object_storage/blobstor/common"
 	"github.com/nspcc-dev/neofs-node/pkg/local_object_storage/blobstor/fstree"
 	meta "github.com/nspcc-dev/neofs-node/pkg/local_object_storage/metabase"
@@ -49,6 +50,8 @@ var engineComponents = map[string]string{
 func TestVerif(t *testing.T) {
 	simkit.Main(t, propC20())
 	simkit.Main(t, propC08())
+	simkit.Main(t, propC19())
+	simkit.Main(t, propC06())
 }
 
 const (
@@ -209,6 +212,12 @@ func (w *enWorld) install() {
 		}
 		return orig(c, ids, m)
 	}
+	shard.VerifHookListWithCursor = func(orig func(int, *shard.Cursor, ...string) ([]objectcore.AddressWithAttributes, *shard.Cursor, error), s *shard.Shard, n int, c *shard.Cursor, attrs ...string) ([]objectcore.AddressWithAttributes, *shard.Cursor, error) {
+		if w.gate(s, "list", fmt.Sprint(n)) != vOK {
+			return nil, nil, errSimShard
+		}
+		return orig(n, c, attrs...)
+	}
 	shard.VerifHookIsLocked = func(orig func(oid.Address) (bool, error), s *shard.Shard, a oid.Address) (bool, error) {
 		if w.gate(s, "islocked", short(a.Object())) != vOK {
 			return false, errSimShard
@@ -220,6 +229,7 @@ func (w *enWorld) install() {
 func (w *enWorld) uninstall() {
 	shard.VerifHookPut, shard.VerifHookExists, shard.VerifHookGet, shard.VerifHookHead = nil, nil, nil, nil
 	shard.VerifHookDelete, shard.VerifHookMarkGarbage, shard.VerifHookIsLocked = nil, nil, nil
+	shard.VerifHookListWithCursor = nil
 	simfs.OrderSeed.Store(0)
 	simfs.InstallRW(nil)
 }
@@ -549,6 +559,16 @@ func (w *enWorld) exec(op *enOp) {
 		}
 		op.n, op.err = e.Evacuate(ctx, ids, op.flag, nil)
 	}
+}
+
+var ctxBG = context.Background()
+
+func (w *enWorld) shardIDs(idx []int) []common.ID {
+	var ids []common.ID
+	for _, s := range idx {
+		ids = append(ids, w.shards[s].id)
+	}
+	return ids
 }
 
 func errS(err error) string {
